@@ -86,8 +86,12 @@ def run(rep, facts, tier):
     rep.floor('C12.R1 eq variant pairs', len(eqp), 9)
     # does cmp delegate to partial_cmp?
     delegates = any(callee_of(t) == pcf.name for _, t in cmf.calls())
-    ordered = pcp if delegates else (pair_table(cmf) or set())
-    unordered = sorted(p for p in eqp if p not in ordered)
+    # cmp may take what partial_cmp orders and add arms of its own for the types that have no order for sort but are keys all the same
+    ordered = (set(pcp) | set(pair_table(cmf) or set())) if delegates else (pair_table(cmf) or set())
+    # a variant without a payload has one value: Equal is its order
+    cell = fx.adts.get('cell::Cell') or {}
+    unit = {v['name'] for v in cell.get('variants', []) if not v.get('fields')}
+    unordered = sorted(p for p in eqp if p not in ordered and not (p[0] == p[1] and p[0] in unit))
     rep.add('C12.R1', 'C12.R1:eq-pairs-ordered:missing=%s' % ','.join('%s' % a for a, b in unordered), not unordered,
             'every pair equal? compares structurally is ordered by Ord::cmp' if not unordered else
             'equal? compares %s structurally but Ord::cmp (used by the map and by sort) does not order them: distinct keys of these types '
@@ -106,7 +110,8 @@ def run(rep, facts, tier):
             c = callee_of(t) or ''
             rty = f.ty(t['dest']['t']) if t.get('dest') else ''
             if 'Ordering' in rty and not (('PartialOrd' in c or 'Ord' in c.split('::')[-2:][0] or '::Ord' in c or 'cmp::impls' in c) and
-                                          (c.endswith('::partial_cmp') or c.endswith('::cmp'))) and not c.startswith('core::option::Option'):
+                                          (c.endswith('::partial_cmp') or c.endswith('::cmp'))) and not c.startswith('core::option::Option') \
+                    and c not in ('core::iter::traits::iterator::Iterator::cmp', 'core::iter::traits::iterator::Iterator::partial_cmp'):   # lexicographic by the items' own order, as Vec's Ord is
                 odd.append(short(c))
         rep.add('C12.R1', 'C12.R1:%s:orders-by-the-types-own-order' % f.name, not odd,
                 'every Ordering comes from a PartialOrd / Ord method of the operand type' if not odd else
@@ -120,6 +125,12 @@ def run(rep, facts, tier):
             a = cmf.expr_of_operand(t['args'][1]) if len(t['args']) > 1 else None
             fb = expr_str(a) if a is not None else 'default'
     const_equal = fb is not None and 'Ordering::Equal' in fb
+    # ... in whatever form: a return of the constant Equal from cmp (the catch-all arm of a match on the two values) says the
+    # same as unwrap_or(Equal)
+    for (bb_, i_, kind_, payload_) in cmf.defs().get(0, []):
+        if kind_ == 'assign' and payload_.get('k') == 'agg' and payload_.get('adt') == 'core::cmp::Ordering' and payload_.get('variant') == 'Equal':
+            const_equal = True
+            fb = fb or 'a match arm that returns Ordering::Equal'
     rep.add('C12.R1', 'C12.R1:cmp-fallback-is-Equal', not const_equal,
             'cmp has no constant Equal fallback' if not const_equal else
             'Ord::cmp = partial_cmp().unwrap_or(Equal): any two values that partial_cmp does not order (different types, flags, nil, bit-strings, '
